@@ -395,6 +395,106 @@ theorem finding_vml_writer_dropping :
     ∧ (SaveWriters.vspec [] [.add "A1", .save, .read, .add "B5", .save, .read]).2.getLast?
         = some (some ["A1", "B5"]) := by decide
 
+/-! ## the remaining part writers: the whole package state -/
+
+/-- every writer of `writeToZip` renders from loaded state of one of three shapes (a singleton
+under `!= nil` [and one more guard for the calc chain], every entry of a map, every entry of a
+sync.Map), and every reader of a singleton decodes the part only when nothing is loaded
+(regenerated): the shapes the `Slot` model transcribes. -/
+theorem facts_writer_shapes_and_readers :
+    Facts.C02.writerShapes = [
+      ("calcChainWriter", "singleton", "f.CalcChain"),
+      ("commentsWriter", "map", "f.Comments"),
+      ("contentTypesWriter", "singleton", "f.ContentTypes"),
+      ("drawingsWriter", "syncmap", "f.Drawings"),
+      ("volatileDepsWriter", "singleton", "f.VolatileDeps"),
+      ("vmlDrawingWriter", "map", "f.VMLDrawing"),
+      ("workBookWriter", "singleton", "f.WorkBook"),
+      ("workSheetWriter", "syncmap", "f.Sheet"),
+      ("relsWriter", "syncmap", "f.Relationships"),
+      ("sharedStringsLoader", "loader", ""),
+      ("sharedStringsWriter", "singleton", "f.SharedStrings"),
+      ("styleSheetWriter", "singleton", "f.Styles"),
+      ("themeWriter", "singleton", "f.Theme")]
+    ∧ Facts.C02.writerGuards = [
+      ("calcChainWriter", "f.CalcChain != nil && f.CalcChain.C != nil"), ("contentTypesWriter", "f.ContentTypes != nil"),
+      ("volatileDepsWriter", "f.VolatileDeps != nil"), ("workBookWriter", "f.WorkBook != nil"),
+      ("sharedStringsWriter", "f.SharedStrings != nil"), ("styleSheetWriter", "f.Styles != nil"),
+      ("themeWriter", "f.Theme != nil")]
+    ∧ Facts.C02.readerCaches = [
+      ("calcChainReader", "f.CalcChain == nil"), ("contentTypesReader", "f.ContentTypes == nil"),
+      ("stylesReader", "f.Styles == nil"), ("sharedStringsReader", "f.SharedStrings == nil"),
+      ("workbookReader", "f.WorkBook == nil"), ("relsReader", "rels == nil"),
+      ("commentsReader", "f.Comments[path] == nil")] := by decide
+
+/-- which writers consume the state they render from, computed from the regenerated shapes and
+clears: only `workSheetWriter` (it evicts checked worksheets — the case `save_pure` treats); the
+calc chain, comments, content types, drawings, volatile dependencies, VML, workbook,
+relationships, shared strings, styles and theme writers keep what they have loaded. -/
+theorem facts_which_writers_consume :
+    Facts.C02.saveWriters.map SaveWriters.writerConsumes =
+      [false, false, false, false, false, false, false, true, false, false, false, false, false] := by decide
+
+/-- (one part) **the exact condition**: a writer of this shape leaves unchanged what every reader
+of the part returns if it keeps the loaded value, *or* if it drops it and the part's XML binding
+round-trips (`dec (enc a) = a`: the value is re-derived from the bytes just written). -/
+theorem part_writer_pure {α β : Type} (c : SaveWriters.Codec α β) (zero : α) (g : α → Bool)
+    (consumes : Bool) (hrt : consumes = true → c.RoundTrip) (s : SaveWriters.Slot α β) :
+    (s.write c g consumes).view c zero = s.view c zero ∧
+    (s.write c g consumes).write c g consumes = s.write c g consumes :=
+  ⟨SaveWriters.slot_write_view c zero g consumes hrt s, SaveWriters.slot_write_idem c g consumes s⟩
+
+/-- (one part, whole histories) any history of mutations through the reader, reads and saves —
+saves at arbitrary positions — answers and ends like the specification in which the part is a
+plain value and saving does nothing. -/
+theorem part_history_pure {α β : Type} (c : SaveWriters.Codec α β) (zero : α) (g : α → Bool)
+    (consumes : Bool) (hrt : consumes = true → c.RoundTrip) (ops : List (SaveWriters.SOp α))
+    (s : SaveWriters.Slot α β) :
+    (SaveWriters.srun c zero g consumes s ops).2 = (SaveWriters.sspec (s.view c zero) ops).2 ∧
+    (SaveWriters.srun c zero g consumes s ops).1.view c zero = (SaveWriters.sspec (s.view c zero) ops).1 :=
+  SaveWriters.srun_sim c zero g consumes hrt ops s _ rfl
+
+/-- the bytes stored by a save are the rendering of what the readers saw (when the guard lets the
+writer run): saved content = observed content. -/
+theorem part_saved_is_view {α β : Type} (c : SaveWriters.Codec α β) (zero : α) (g : α → Bool)
+    (consumes : Bool) (s : SaveWriters.Slot α β) (a : α) (hl : s.loaded = some a) (hg : g a = true) :
+    (s.write c g consumes).part = some (c.enc (s.view c zero)) :=
+  SaveWriters.slot_write_part c zero g consumes s a hl hg
+
+/-- (**the whole package**, clauses "every getter returns what it returned before" and "saving twice")
+one slot per writer of `writeToZip`, consumption flags as the code has them: a save leaves the
+view of *every* part unchanged, and a second save leaves loaded values and bytes exactly as the
+first left them. The only hypothesis is the XML round-trip of the one part whose writer consumes
+(the worksheets, for which `save_pure` proves the corresponding statement on the real
+representation: `saved_part_decodes`). -/
+theorem package_save_pure {α β : Type} (c : SaveWriters.Codec α β) (zero : α) (g : α → Bool)
+    (hrt : c.RoundTrip) (ss : List (SaveWriters.Slot α β)) :
+    let flags := Facts.C02.saveWriters.map SaveWriters.writerConsumes
+    (SaveWriters.savePkg c g flags ss).map (SaveWriters.Slot.view c zero) = ss.map (SaveWriters.Slot.view c zero) ∧
+    SaveWriters.savePkg c g flags (SaveWriters.savePkg c g flags ss) = SaveWriters.savePkg c g flags ss :=
+  ⟨SaveWriters.savePkg_view c zero g _ ss (fun _ _ _ => hrt), SaveWriters.savePkg_idem c g _ ss⟩
+
+/-- without the worksheets nothing is assumed about the XML binding at all: the other twelve
+writers are non-consuming. -/
+theorem package_save_pure_other_parts {α β : Type} (c : SaveWriters.Codec α β) (zero : α) (g : α → Bool)
+    (ss : List (SaveWriters.Slot α β)) :
+    let flags := (Facts.C02.saveWriters.filter (· != "workSheetWriter")).map SaveWriters.writerConsumes
+    (SaveWriters.savePkg c g flags ss).map (SaveWriters.Slot.view c zero) = ss.map (SaveWriters.Slot.view c zero) := by
+  have hf : (Facts.C02.saveWriters.filter (· != "workSheetWriter")).map SaveWriters.writerConsumes
+      = List.replicate 12 false := by decide
+  simp only [hf]
+  apply SaveWriters.savePkg_view
+  intro f hf' ht
+  have : f = false := List.eq_of_mem_replicate hf'
+  rw [this] at ht; cases ht
+
+/-- a writer that drops the loaded value while its reader keeps a memo that is not invalidated
+(the VML case, `finding_vml_writer_dropping`) or whose binding does not round-trip is *not*
+covered: here a consuming writer with a lossy binding changes the view. -/
+theorem consuming_writer_needs_roundtrip :
+    let c : SaveWriters.Codec Nat Nat := ⟨fun a => a / 2, fun b => b * 2⟩
+    ((⟨some 3, none⟩ : SaveWriters.Slot Nat Nat).write c (fun _ => true) true).view c 0 ≠ 3 := by decide
+
 /-! ## an open finding that the history theorem's hypothesis `HistOk` stands for -/
 
 /-- (finding, open) `SetRowVisible` accepts a row beyond `TotalRows` (it only rejects
